@@ -47,6 +47,8 @@ fn cb_body(c: &CbCase) -> Result<(), Fail> {
 
     let feeder = c.feeder % 6;
     let count: Option<usize>;
+    let mut pulled = 0usize;
+    let mut left_in_source = 0usize;
     {
         let mut cb: OpaqueCallback<HeapTok> = match sink_kind {
             0 => OpaqueCallback::from(&mut closure),
@@ -55,10 +57,24 @@ fn cb_body(c: &CbCase) -> Result<(), Fail> {
             _ => sink_set.from_extend(),
         };
         count = match feeder {
-            0 => Some(items.feed_into(cb)),
-            1 => Some(items.feed_into_mut(&mut cb)),
+            // the source is lent (`by_ref`) and watched: it must not be advanced beyond the item
+            // whose delivery stopped the feed - an item pulled but never offered is lost
+            0 => {
+                let mut it = items.into_iter();
+                let k = it.by_ref().inspect(|_| pulled += 1).feed_into(cb);
+                left_in_source = it.count();
+                Some(k)
+            }
+            1 => {
+                let mut it = items.into_iter();
+                let k = it.by_ref().inspect(|_| pulled += 1).feed_into_mut(&mut cb);
+                left_in_source = it.count();
+                Some(k)
+            }
             2 => {
-                cb.extend(items);
+                let mut it = items.into_iter();
+                cb.extend(it.by_ref().inspect(|_| pulled += 1));
+                left_in_source = it.count();
                 None
             }
             3 => {
@@ -97,6 +113,9 @@ fn cb_body(c: &CbCase) -> Result<(), Fail> {
                 }
             }
         };
+    }
+    if feeder <= 2 {
+        ensure!(pulled == offered && left_in_source == n - offered, "source-overrun", "the feed took {pulled} items out of the source and left {left_in_source} in it, but only {offered} of {n} were offered to the callback (stop_at={stop_at:?})");
     }
     if let Some(k) = count {
         ensure!(k == offered, "count", "reported count {k}, but {offered} items were offered (n={n}, stop_at={stop_at:?})");
